@@ -241,9 +241,12 @@ class Path:
     end: str = "fall"      # fall | return | raise | break | continue
     ret: Optional[ast.AST] = None
     exc: bool = False      # path passed through an exception edge
+    env: Dict[str, object] = field(default_factory=dict)   # local name -> known constant
+    facts: List[Tuple[str, bool]] = field(default_factory=list)  # normalised atoms known on the path
 
     def copy(self) -> "Path":
-        return Path(list(self.events), list(self.decisions), self.end, self.ret, self.exc)
+        return Path(list(self.events), list(self.decisions), self.end, self.ret, self.exc, dict(self.env),
+                    list(self.facts))
 
     @property
     def kinds(self) -> List[str]:
@@ -251,6 +254,16 @@ class Path:
 
 
 MAX_PATHS = 20000
+_NAMES_CACHE: Dict[str, set] = {}
+
+
+def _names_of_text(t: str) -> set:
+    if t not in _NAMES_CACHE:
+        try:
+            _NAMES_CACHE[t] = {n.id for n in ast.walk(ast.parse(t, mode="eval")) if isinstance(n, ast.Name)}
+        except SyntaxError:
+            _NAMES_CACHE[t] = set()
+    return _NAMES_CACHE[t]
 
 
 class PathEnum:
@@ -337,22 +350,99 @@ class PathEnum:
                     out.add(n.id)
         return out
 
+    @staticmethod
+    def _eval(test: ast.AST, env: Dict[str, object]):
+        """Three-valued evaluation of a test under known local constants: True / False / None(unknown)."""
+        if isinstance(test, ast.Constant):
+            return bool(test.value)
+        if isinstance(test, ast.Name):
+            return bool(env[test.id]) if test.id in env else None
+        if isinstance(test, ast.UnaryOp) and isinstance(test.op, ast.Not):
+            v = PathEnum._eval(test.operand, env)
+            return None if v is None else not v
+        if isinstance(test, ast.BoolOp):
+            vals = [PathEnum._eval(v, env) for v in test.values]
+            if isinstance(test.op, ast.And):
+                if any(v is False for v in vals):
+                    return False
+                return True if all(v is True for v in vals) else None
+            if any(v is True for v in vals):
+                return True
+            return False if all(v is False for v in vals) else None
+        if isinstance(test, ast.Compare) and len(test.ops) == 1 and isinstance(test.left, ast.Name) \
+                and test.left.id in env and isinstance(test.comparators[0], ast.Constant):
+            a, b = env[test.left.id], test.comparators[0].value
+            op = test.ops[0]
+            if isinstance(op, ast.Is):
+                return a is b
+            if isinstance(op, ast.IsNot):
+                return a is not b
+            if isinstance(op, ast.Eq):
+                return a == b
+            if isinstance(op, ast.NotEq):
+                return a != b
+        return None
+
     def decide(self, paths: List[Path], test: ast.AST, pol: bool) -> List[Path]:
         key = u(test)
+        new_facts = [(u(e), p_) for e, p_ in atoms(test, pol)]
         out = []
         for p in paths:
             ok = True
-            for (k, v) in p.decisions:
-                if k == key and v != pol:
+            v = self._eval(test, p.env)
+            if v is not None and v != pol:
+                continue
+            for (k, vv) in p.decisions:
+                if k == key and vv != pol:
                     ok = False
                     break
             if ok:
+                for (t, fp) in new_facts:
+                    if (t, not fp) in p.facts:
+                        ok = False
+                        break
+            if ok:
                 q = p.copy()
                 q.decisions.append((key, pol))
+                q.facts.extend(new_facts)
+                # (A and B) false with A known true  =>  B false   (dually for `or`)
+                if isinstance(test, ast.BoolOp) and (isinstance(test.op, ast.And) and not pol
+                                                      or isinstance(test.op, ast.Or) and pol):
+                    want = isinstance(test.op, ast.And)
+                    rest = []
+                    for v in test.values:
+                        known = all((u(e), pp) in q.facts for e, pp in atoms(v, want))
+                        ev = self._eval(v, q.env)
+                        if known or ev is want:
+                            continue
+                        rest.append(v)
+                    if len(rest) == 1:
+                        q.facts.extend((u(e), pp) for e, pp in atoms(rest[0], not want))
+                        q.decisions.append((u(rest[0]), not want))
                 out.append(q)
         return out
 
+    def _update_env(self, paths: List[Path], st: ast.stmt) -> None:
+        tg = []
+        val = None
+        if isinstance(st, ast.Assign):
+            tg, val = st.targets, st.value
+        elif isinstance(st, ast.AnnAssign) and st.value is not None:
+            tg, val = [st.target], st.value
+        elif isinstance(st, ast.AugAssign):
+            tg, val = [st.target], None
+        for t in tg:
+            for n in ast.walk(t):
+                if isinstance(n, ast.Name) and isinstance(n.ctx, ast.Store):
+                    for p in paths:
+                        if isinstance(t, ast.Name) and isinstance(val, ast.Constant):
+                            p.env[n.id] = val.value
+                        else:
+                            p.env.pop(n.id, None)
+                        p.facts = [(x, y) for (x, y) in p.facts if n.id not in _names_of_text(x)]
+
     def kill(self, paths: List[Path], st: ast.stmt) -> None:
+        self._update_env(paths, st)
         names = self._assigned_names(st)
         # any call may change attributes (self.x) – be conservative for dotted tests
         has_call = any(isinstance(n, ast.Call) for n in ast.walk(st) if not isinstance(n, SCOPE_NODES))
@@ -453,10 +543,14 @@ class PathEnum:
             return self.block(st.body, paths)
         if isinstance(st, ast.Try):
             return self.try_(st, paths)
-        # simple statement
+        # simple statement: events of its expressions, then the statement itself
         for ch in ast.iter_child_nodes(st):
             if isinstance(ch, ast.expr):
                 paths = self.add_events(paths, ch)
+        lab = self.is_event(st)
+        if lab:
+            for p in paths:
+                p.events.append((lab, st))
         self.kill(paths, st)
         return paths
 
